@@ -227,7 +227,14 @@ pub proof fn lemma_wr_inside<W: Write + ?Sized>(o: &W, f: &W, b: Seq<u8>)
 {
     lemma_splice_inside(o.out(), o.wpos(), b);
 }
-pub broadcast group g_wr { lemma_wr_intro, lemma_wr_facts, lemma_wr_wr, lemma_wr_append }
+/// writing at offset 0 at least as many bytes as the destination holds replaces the whole content
+pub broadcast proof fn lemma_wr_at_zero<W: Write + ?Sized>(o: &W, f: &W, b: Seq<u8>)
+    requires #[trigger] wr(o, f, b), o.wpos() == 0, o.out().len() <= b.len(), b.len() > 0
+    ensures f.out() == b, at_end(f)
+{
+    assert(splice(o.out(), 0, b) =~= b);
+}
+pub broadcast group g_wr { lemma_wr_intro, lemma_wr_facts, lemma_wr_wr, lemma_wr_append, lemma_wr_at_zero }
 
 /// destination is in append position
 pub open spec fn at_end<W: Write + ?Sized>(w: &W) -> bool { w.wpos() == w.out().len() }
